@@ -76,7 +76,7 @@ def known_foreign(l):
         out.append("range")
     if is_arithmetic(l) and (digit_run(l) >= 19 or "^" in l):
         out.append("arith")
-    if ("$(" in l or "`" in l) and (">" in l or "<" in l):
+    if (("$" in l and "(" in l) or "`" in l) and (">" in l or "<" in l):
         out.append("subst")
     if "\n" in l and "$" in l:
         out.append("nl-dollar")
@@ -84,15 +84,17 @@ def known_foreign(l):
         out.append("selfref")
     if "${" in l:
         out.append("brace-open")
+    if "<<<" in l:
+        out.append("herestring")
     return out
 
 
 # failure mode each foreign class tolerates
 FOREIGN_MODE = {"range": ("PANIC", "HANG"), "arith": ("PANIC",), "subst": ("HANG",), "nl-dollar": ("HANG",),
-                "selfref": ("HANG",), "brace-open": ("HANG",)}
+                "selfref": ("HANG",), "brace-open": ("HANG",), "herestring": ("SIGPIPE",)}
 FOREIGN_NAME = {"range": "foreign-range-overflow", "arith": "foreign-arith-overflow", "subst": "foreign-subst-hang",
                 "nl-dollar": "foreign-newline-dollar-hang", "selfref": "foreign-selfref-hang",
-                "brace-open": "foreign-brace-open-hang"}
+                "brace-open": "foreign-brace-open-hang", "herestring": "foreign-herestring-sigpipe"}
 
 
 class V:
@@ -124,7 +126,7 @@ class V:
             # the inner line of a substitution plans a command without words: the own class, reached through run_pipeline
             if self.hit("empty-command-substitution", "e.g. %r -> PANIC (%s)" % (line, layer)):
                 return
-        for c in sorted(cls, key=lambda c: ["brace-open", "nl-dollar", "selfref", "arith", "range", "subst"].index(c)):
+        for c in sorted(cls, key=lambda c: ["brace-open", "nl-dollar", "selfref", "arith", "range", "subst", "herestring"].index(c)):
             if mode in FOREIGN_MODE[c] and self.hit(FOREIGN_NAME[c], "e.g. %r -> %s (%s)" % (line, mode, layer)):
                 return
         self.violate(layer, kind="oracle", input=line, observed=observed, failing_input=True,
@@ -335,15 +337,17 @@ def gen_l2_lines(ctx, n):
 
 def run_l2_one(ctx, work, ix, line):
     d = tempfile.mkdtemp(prefix="l2_", dir=work)
-    env = {"HOME": d, "XDG_CONFIG_HOME": d, "PATH": "/usr/bin:/bin", "LANG": "C.UTF-8", "RUST_BACKTRACE": "0",
-           "HISTORY_FILE": os.path.join(d, "h.sqlite")}
     res = {}
-    script = os.path.join(d, "s.sh")
+    script = os.path.join(d, "s.sh")     # NOT in the cwd of the runs: a line like `a > *` would clobber it
     with open(script, "w") as f:
         f.write(line + "\necho C05-SENTINEL\n")
     for mode, argv in (("c", [ctx.cicada, "-c", line]), ("script", [ctx.cicada, script])):
+        cwd = os.path.join(d, "cwd_" + mode)
+        os.makedirs(cwd)
+        env = {"HOME": cwd, "XDG_CONFIG_HOME": cwd, "PATH": "/usr/bin:/bin", "LANG": "C.UTF-8", "RUST_BACKTRACE": "0",
+               "HISTORY_FILE": os.path.join(d, "h_%s.sqlite" % mode)}
         try:
-            pr = subprocess.run(argv, cwd=d, env=env, stdin=subprocess.DEVNULL, stdout=subprocess.PIPE,
+            pr = subprocess.run(argv, cwd=cwd, env=env, stdin=subprocess.DEVNULL, stdout=subprocess.PIPE,
                                 stderr=subprocess.PIPE, timeout=5, start_new_session=True)
             rc, out, err = pr.returncode, pr.stdout.decode("utf-8", "replace"), pr.stderr.decode("utf-8", "replace")
         except subprocess.TimeoutExpired as ex:
@@ -360,6 +364,8 @@ def judge_l2(line, r):
         x = r[mode]
         if x["rc"] == "TIMEOUT":
             return "HANG", "%s: timeout" % mode
+        if x["rc"] in (-13, 141) and not x["panic"]:
+            return "SIGPIPE", "%s: rc=%s (SIGPIPE)" % (mode, x["rc"])
         if x["panic"] or x["rc"] in CRASH_RC or (isinstance(x["rc"], int) and x["rc"] < 0):
             shell_died = x["rc"] in CRASH_RC or x["rc"] < 0
             if mode == "script" and x["sentinel"] and not shell_died:
@@ -453,7 +459,7 @@ def pty_session(ctx, work, ix, keys):
     try:
         for k in keys:
             os.write(fd, k.encode("utf-8", "replace"))
-            log += rd(0.12)
+            log += rd(0.6 if k == "\r" else 0.12)   # let a started command finish before the next key
         # leave any open quote / continuation: Ctrl-C, then the sentinel
         os.write(fd, b"\x03")
         log += rd(0.3)
@@ -504,6 +510,8 @@ def layer3(ctx, res, vv, work):
     for keys, o in zip(sess, outs):
         typed = "".join(keys)
         res.nontrivial("pty:" + typed[:40])
+        if not o["panic"] and not o["answered"]:
+            o = pty_session(ctx, work, 0, keys)      # timing-dependent layer: an unanswered session must fail twice
         if o["panic"] or not o["answered"]:
             mode = "PANIC" if o["panic"] else "HANG"
             vv.foreign("L3", typed, mode, repr(o))
